@@ -2,14 +2,14 @@ SPECIFICATION Spec
 CONSTANTS
   Sinks = {"s1", "s2", "s3"}
   Fallbacks = {"fb", "none"}
-  FbStartStop = {TRUE, FALSE}
-  Rules <- RulesMix
-  Events <- EventsS
-  BadRules <- BadNone
-  MaxRejected = 0
-  MaxRules = 2
-  MaxStatus = 2
-  MaxRuns = 1
+  FbStartStop = {TRUE}
+  Rules <- RulesRej
+  Events <- EventsRej
+  BadRules <- BadAll
+  MaxRejected = 2
+  MaxRules = 1
+  MaxStatus = 1
+  MaxRuns = 2
   RulesInRun = TRUE
   Export = TRUE
   Variant = "asRequired"
